@@ -2,7 +2,7 @@
    mod2rref, mod2linsolve, mod2nullspace_basis over index-addressed matrices) compute, on EVERY input, what the hand-written
    functional models of Model/Gf2.v compute.  Every C18 theorem about the models is therefore a theorem about the code generated
    from the current source. *)
-From Coq Require Import List Bool Arith.
+From Coq Require Import List Bool Arith ZArith.
 From SageVerif Require Import Model.Gf2 Model.NpIdioms Gen.GenGf2.
 Import ListNotations.
 
@@ -34,3 +34,24 @@ Definition gen_nullspace_exact_stmt : Prop :=
   forall n A R piv, wf n A -> A <> [] -> gen_mod2rref false A = (R, piv) ->
     forall x, length x = n ->
       (mulmv A x = zeros (length A) <-> In x (span n (gen_mod2nullspace_basis n R piv))).
+
+(* ---- the sign-pattern layer ---- *)
+Definition gen_lsn_equiv_stmt : Prop :=
+  forall n alpha moments, gen_linear_system_negatives n alpha moments = linear_system_negatives n alpha moments.
+
+Definition gen_signs_equiv_stmt : Prop :=
+  forall n alpha moments heuristic all_signs,
+    gen_variable_sign_patterns n alpha moments heuristic all_signs = variable_sign_patterns n alpha moments heuristic all_signs.
+
+(* the sign-pattern theorems of C18 for the GENERATED variable_sign_patterns: every returned pattern is consistent with the signs of the
+   moments, every consistent pattern (0 on irrelevant coordinates) is returned, and nothing is returned exactly when no pattern exists *)
+Definition gen_signs_exact_stmt : Prop :=
+  forall n alpha moments,
+    wfz n alpha -> length moments = length alpha -> even_moments_nonneg alpha moments ->
+    (forall all_signs ys, gen_variable_sign_patterns n alpha moments false all_signs = SpList ys ->
+       forall y, In y ys -> length y = n /\ consistent alpha moments y) /\
+    (forall heur ys y, gen_variable_sign_patterns n alpha moments heur true = SpList ys ->
+       length y = n -> consistent alpha moments y ->
+       (forall j, j < n -> ~ relevant alpha moments j -> nth j y false = false) -> In y ys) /\
+    (forall all_signs, gen_variable_sign_patterns n alpha moments false all_signs = SpList [] <->
+       forall y, length y = n -> ~ consistent alpha moments y).
